@@ -105,8 +105,18 @@ class ObsTableau(Tableau):
         super().__init__(*a, **kw)
 
     def _check_timeout(self):
+        # record the reading the implementation's own check is about to see: with the ticking clock every reading advances
+        # the clock, so the clock is held while the real check reads it (otherwise the model is fed a reading one tick
+        # older than the one compared with the limit — a false disagreement exactly at reading == build_timeout)
         self.obs.checks.append(self.timers.build.elapsed_ms())
-        return super()._check_timeout()
+        clk = self.obs.clock
+        if clk is None or clk.mode != 'tick':
+            return super()._check_timeout()
+        clk.mode = 'frozen'
+        try:
+            return super()._check_timeout()
+        finally:
+            clk.mode = 'tick'
 
     def next(self):
         o = self.obs
